@@ -639,6 +639,8 @@ impl<'a> Evaluator<'a> {
             ("make_timestamp", [y, mo, d, h, mi, s, us]) => match (y, mo, d, h, mi, s, us) {
                 // chrono reads 1_000_000..2_000_000 microseconds at second 59 as a leap second: not fixed by the README
                 (_, _, _, _, _, V::Int(59), V::Int(us)) if *us >= 1_000_000 && *us < 2_000_000 => Ev::unspec(),
+                // the ends of the range of representable instants are not documented (totality there is C09's business)
+                (V::Int(y), _, _, _, _, _, _) if y.abs() > 100_000 => Ev::unspec(),
                 (V::Int(y), V::Int(mo), V::Int(d), V::Int(h), V::Int(mi), V::Int(s), V::Int(us)) => match make_ts(*y, *mo, *d, *h, *mi, *s, *us) {
                     Some(m) => Ev::val(V::Ts(m)),
                     // out of range: NULL or error, never another date
